@@ -13,6 +13,7 @@ import (
 
 	"github.com/cbeuw/Cloak/internal/common"
 	"github.com/cbeuw/Cloak/internal/server/usermanager"
+	"github.com/cbeuw/Cloak/internal/verifhook"
 
 	mux "github.com/cbeuw/Cloak/internal/multiplex"
 	log "github.com/sirupsen/logrus"
@@ -244,6 +245,7 @@ func dispatchConnection(conn net.Conn, sta *State) {
 		return
 	}
 
+	verifhook.At("dispatch.user.resolved", uint64(ci.SessionId))
 	sesh, existing, err := user.GetSession(ci.SessionId, seshConfig)
 	if err != nil {
 		user.CloseSession(ci.SessionId, "")
